@@ -551,9 +551,11 @@ pub fn dur_strategy() -> impl Strategy<Value = DurSpec> {
         2 => (0u32..=100_000, 0u8..=1),
         1 => (0u32..=10, Just(3u8)),
         1 => (prop::sample::select(vec![24u32, 25, 48, 1440, 1439, 86400, 86399, 3600]), 0u8..=2),
+        // long durations (decades to millennia, beyond 2^31 and 2^32 seconds): the clock still moves modulo 24 h
+        1 => prop_oneof![(0u32..=5000, Just(6u8)), (0u32..=300_000, Just(4u8)), (0u32..=2_000_000, Just(3u8)), (0u32..=50_000_000, Just(2u8)), (2_000_000_000u32..=4_294_967_295, Just(0u8)), (30_000_000u32..=80_000_000, Just(1u8))],
     ];
     (prop::collection::vec(part, 1..=3), prop::bool::weighted(0.2)).prop_map(|(mut parts, negative)| {
-        // descending units read naturally; keep the total within ten days
+        // descending units read naturally
         parts.sort_by(|a, b| b.1.cmp(&a.1));
         let negative = negative && parts[0].0 > 0;
         DurSpec { parts, negative }
@@ -611,7 +613,7 @@ pub fn settz_strategy() -> impl Strategy<Value = SetTz> {
 
 pub fn run(ctx: &Ctx) {
     let _ = monotone_index(0, 1);
-    ctx.rule("generated: times H:MM[:SS] (0-23, with/without leading zero) and h[:MM] am|pm (1-11, any letter case, with/without the blank), optional zone = every table abbreviation of 2-4 capitals that means nothing else to the lexer, GMT, UTC, GMT+-h, GMT+-h:mm, GMT+-hhmm (h 0-19); T [Z1] to|as|in|into Z2, Z1->Z2->Z1 chains, T [Z] +- durations (1-3 parts, seconds..days, negative-literal counts), T1 to T2; default zone from a pool set through set_timezone; set_timezone call sequences incl. rejected strings; ALL ordered zone pairs enumerated at fixed wall times; oracle: offsets from the zone table of config.json, shown = wall - off(Z1) + off(Z2) mod 24 h read from the AST (instant + offset) and from the printed 'HH:MM:SS NAME', arithmetic mod 24 h, |T2-T1| for differences, independence from the default zone when Z1 is explicit; non-trivial = off(Z1) != off(Z2) / duration not a multiple of 24 h / distinct times");
+    ctx.rule("generated: times H:MM[:SS] (0-23, with/without leading zero) and h[:MM] am|pm (1-11, any letter case, with/without the blank), optional zone = every table abbreviation of 2-4 capitals that means nothing else to the lexer, GMT, UTC, GMT+-h, GMT+-h:mm, GMT+-hhmm (h 0-19); T [Z1] to|as|in|into Z2, Z1->Z2->Z1 chains, T [Z] +- durations (1-3 parts, seconds..days plus long ones in weeks, years, tens of millions of hours and up to 2^32 seconds, negative-literal counts), T1 to T2; default zone from a pool set through set_timezone; set_timezone call sequences incl. rejected strings; ALL ordered zone pairs enumerated at fixed wall times; oracle: offsets from the zone table of config.json, shown = wall - off(Z1) + off(Z2) mod 24 h read from the AST (instant + offset) and from the printed 'HH:MM:SS NAME', arithmetic mod 24 h, |T2-T1| for differences, independence from the default zone when Z1 is explicit; non-trivial = off(Z1) != off(Z2) / duration not a multiple of 24 h / distinct times");
     ctx.assume("12:xx am/pm is left out (pinned by the suite); T1 Z1 to T2 Z2 with different zones is not generated (the statement does not define it)");
     let times: &[(u8, u8)] = match ctx.tier {
         crate::engine::Tier::Quick => &[(10, 30), (23, 45)],
